@@ -184,7 +184,7 @@ def run(chk):
         'keys the parser reads. The inverse tables of the individual converters are C15.')
     schemas = load_schemas(repo, 'C12.R1')
     # ---- R1 -----------------------------------------------------------------------------------------------------
-    rec = WriterRecord(repo, 'JsonLogWriter', 'C12.R1')
+    rec = WriterRecord(repo, 'JsonLogWriter', 'C12.R1', chk=chk)
     check_writer_schema(chk, 'C12.R1', rec, 'log_format.schema.json', ['properties', 'logs', 'items'], schemas)
     chk.floor('C12.R1', 'keys written by JsonLogWriter.write', len(rec.keys), 12)
     w_dumps, q_dumps = loc(repo, 'JsonWriter', '_write_content', 'C12.R1')
@@ -195,9 +195,15 @@ def run(chk):
     chk.require(good, 'C12.R1', w_dumps, q_dumps, ast.unparse(dumps[0]) if dumps else 'json.dumps',
                 'records are serialised by json.dumps on one line (escaping of arbitrary text is delegated to the stdlib)',
                 'records are not serialised by a plain single-line json.dumps call')
+    if dumps:
+        raw = [k for k in dumps[0].keywords if k.arg == 'ensure_ascii' and not (isinstance(k.value, ast.Constant) and k.value.value is True)]
+        chk.require(not raw, 'C12.R1', w_dumps, q_dumps, 'json.dumps(ensure_ascii=...)',
+                    'the document is pure ASCII (every non-ASCII character of a name or id is \\u-escaped), so it survives whatever encoding the stream has',
+                    f'`{ast.unparse(dumps[0])}`: with ensure_ascii off, names and ids are written raw; Server.run opens the log with the platform default encoding, so a '
+                    f'non-ASCII name raises UnicodeEncodeError in the middle of the file or is read back as different characters')
     # unopened writer refuses
     for cls in ('JsonLogWriter', 'JsonBoardSettingWriter'):
-        r = WriterRecord(repo, cls, 'C12.R4') if cls != 'JsonLogWriter' else rec
+        r = WriterRecord(repo, cls, 'C12.R4', chk=chk) if cls != 'JsonLogWriter' else rec
         chk.require(bool(r.raise_paths), 'C12.R4', r.where, r.qual, 'write on a closed writer', 'write() on an unopened writer raises',
                     'write() does not refuse when the writer is not open')
 
